@@ -91,15 +91,15 @@ Definition runner_env (r : runner) (p : params) : env :=
   | Some dyn => api_staged_env dyn (fun k => assoc k (r_base r)) rt
   end.
 
-(* the derived-output graph is not frozen: its functions are evaluated with the run-time values and,
-   for the parameters that are not dynamic, the build-time values as fallback (run_model: do_full_params) *)
+(* the derived-output graph is not frozen: its functions are evaluated with the run-time values, except that the
+   parameters that are not dynamic keep their build-time values, as in the model graph (run_model: do_full_params) *)
 Definition frozen_base (r : runner) : params :=
   match r_dyn r with
   | None => []
   | Some dyn => filter (fun kv => negb (mem_str (fst kv) dyn)) (r_base r)
   end.
 Definition runner_env_derived (r : runner) (p : params) : env :=
-  env_of O (runner_params r p ++ frozen_base r).
+  env_of O (frozen_base r ++ runner_params r p).
 
 (* a parameter that the graph needs and that is neither frozen nor supplied is a KeyError *)
 Definition missing (r : runner) (p : params) : list string :=
